@@ -294,7 +294,8 @@ def write_replay(pid, payload):
 
 
 def write_evidence(ctx, obligations, discharged, axioms, n_viol, checker_cmd, level_note=None):
-    d = os.path.join(ROOT, "evidence")
+    # runs against a scratch repository (VERIF_REPO, seeded changes) must not overwrite the evidence of /repo
+    d = os.environ.get("VERIF_EVIDENCE_DIR") or os.path.join(ROOT, "evidence")
     os.makedirs(d, exist_ok=True)
     cov = {
         "obligations": len(obligations),
